@@ -557,3 +557,17 @@ fn c11(thorough: bool, miri: bool, seed: u64, threads: usize) -> Json {
         "exhaustive over all 65536 u16 values for both enum conversions; packets are seeded samples from a grammar (strings: empty, ASCII, non-ASCII UTF-8, 520 bytes, random code points; option lists of length 0..6 with repeats; values 0..2^64-1; block numbers incl. 0, 255, 256, 65535; payload lengths incl. 0, 1, 511, 512, 513, 1428, 65464).",
     )
 }
+
+
+/// Runs the C10 oracle on one datagram; returns the first violation, if any (used by the fuzz target and `vh judge`).
+pub fn judge_one(buf: &[u8]) -> Option<String> {
+    let mut rep = PureReport::default();
+    judge_datagram(buf, &mut rep, "single");
+    rep.violations.first().map(|v| v.render())
+}
+
+
+pub fn seed_corpus() -> Vec<Vec<u8>> {
+    let mut r = Rng::new(1);
+    grammar_packets(&mut r).into_iter().step_by(7).collect()
+}
